@@ -421,16 +421,6 @@ theorem emits_codons {t : Table} (hp : Partition t) : ∀ (p : Str) (cs : List S
     · simp only [List.flatMap_cons, ih2, aaOf, mapGetStr, all64_upper _ hin, hg, hl]
       rfl
 
-theorem byteLen_eq_zero (s : Str) : byteLen s = 0 ↔ s = [] := by
-  cases s with
-  | nil => simp [byteLen]
-  | cons c cs =>
-    have := Char.utf8Size_pos c
-    simp only [byteLen, List.map_cons, List.sum_cons]
-    constructor
-    · intro h; omega
-    · intro h; cases h
-
 theorem partition_nonempty {t : Table} (hp : Partition t) : emptyTable t = false := by
   have h : "TTT".toList ∈ triplets t := hp.2.2 _ (by decide)
   cases ha : t.aminoAcids with
